@@ -342,8 +342,7 @@ class Process:
         # platform-specific modules define an _psplatform.Process
         # implementation class
         self._proc = _psplatform.Process(pid)
-        self._last_sys_cpu_times = None
-        self._last_proc_cpu_times = None
+        self._last_cpu_sample = None
         self._exitcode = _SENTINEL
         self._ident = (self.pid, None)
         try:
@@ -1078,14 +1077,16 @@ class Process:
             st2 = timer()
             pt2 = self._proc.cpu_times()
         else:
-            st1 = self._last_sys_cpu_times
-            pt1 = self._last_proc_cpu_times
+            # The previous sample is read and stored as one object so
+            # that concurrent calls never pair the timestamp of one call
+            # with the CPU times of another.
+            last = self._last_cpu_sample
             st2 = timer()
             pt2 = self._proc.cpu_times()
-            if st1 is None or pt1 is None:
-                self._last_sys_cpu_times = st2
-                self._last_proc_cpu_times = pt2
+            if last is None:
+                self._last_cpu_sample = (st2, pt2)
                 return 0.0
+            st1, pt1 = last
 
         delta_proc = (pt2.user - pt1.user) + (pt2.system - pt1.system)
         # Scaled by the number of CPUs *now*: the samples themselves are
@@ -1093,8 +1094,7 @@ class Process:
         # previous call (hot-plug) does not distort the interval.
         delta_time = (st2 - st1) * num_cpus
         # reset values for next call in case of interval == None
-        self._last_sys_cpu_times = st2
-        self._last_proc_cpu_times = pt2
+        self._last_cpu_sample = (st2, pt2)
 
         try:
             # This is the utilization split evenly between all CPUs.
